@@ -57,14 +57,19 @@ def gen_stress(rng):
       mems: [{"mod", "w", "depth", "rd": sig, ...}]
     """
     nmod = rng.randrange(1, 8)
+    # "collide" designs aim the two name generators at each other: clashing signal names are renamed to
+    # <name>$<n>, unnamed sub-modules/instances are called <type>$<index>, and signals may be called either.
+    collide = rng.choice(["foo", "Module", "a"]) if rng.random() < 0.25 else None
+    cnames = [collide] * 3 + [f"{collide}${k}" for k in range(10)]
     modules = [{"parent": -1, "name": "top"}]
     for k in range(1, nmod):
-        modules.append({"parent": rng.randrange(0, k), "name": None if rng.random() < 0.25 else rng.choice(["m1", "m2", "a", "sub", "x"])})
+        anon = rng.random() < (0.7 if collide else 0.25)
+        modules.append({"parent": rng.randrange(0, k), "name": None if anon else rng.choice(["m1", "m2", "a", "sub", "x"])})
     nsig = rng.randrange(2, 12)
     signals = []
     weird = rng.random() < 0.04
     for i in range(nsig):
-        name = rng.choice(NAMES)
+        name = rng.choice(cnames) if collide and rng.random() < 0.7 else rng.choice(NAMES)
         if rng.random() < 0.08:
             name = ""              # private
         if weird and rng.random() < 0.3:
@@ -91,7 +96,7 @@ def gen_stress(rng):
         elif rng.random() < 0.6:
             ports.append([i, rng.choice(["o", None])])
     instances = []
-    for k in range(rng.choice([0, 0, 1, 2])):
+    for k in range(rng.randrange(2, 7) if collide else rng.choice([0, 0, 1, 2])):
         params = {}
         for j in range(rng.randrange(0, 5)):
             kind = rng.choice(["int", "neg", "big", "str", "float", "const", "sconst"])
@@ -117,7 +122,10 @@ def gen_stress(rng):
             outs.append([f"o{j}", len(signals) - 1])
             if rng.random() < 0.5:
                 ports.append([len(signals) - 1, "o"])
-        instances.append({"mod": rng.randrange(nmod), "type": rng.choice(["foo", "BAR", "prim.x"]), "name": rng.choice(["u0", "u1", "a", None]),
+        itype, iname = rng.choice(["foo", "BAR", "prim.x"]), rng.choice(["u0", "u1", "a", None])
+        if collide and rng.random() < 0.8:
+            itype, iname = (collide if collide != "Module" else "foo"), None
+        instances.append({"mod": rng.randrange(nmod) if not collide else rng.choice([0, 0, rng.randrange(nmod)]), "type": itype, "name": iname,
                           "params": params, "attrs": attrs, "ins": ins, "outs": outs})
     mems = []
     if rng.random() < 0.3:
